@@ -191,8 +191,18 @@ def random_case(draw, tier="quick"):
     spec = draw(gen_atoms.typed_structure(min_atoms=2, max_atoms=12 if tier == "quick" else 40, max_terms=8, dups=True))
     if draw(hperm.integers(0, 11)) == 0:
         spec = gen_atoms.inflate(spec, draw(st.sampled_from([150, 300])) // len(spec["pos"]) + 1)
+    sparse = False
+    if len(spec["pos"]) <= 40 and draw(hperm.integers(0, 11)) == 0:
+        # a small bonded fragment somewhere in a long list of plain atoms, and many deletions spread over the whole list
+        sparse = True
+        spec = gen_atoms.pad(spec, draw(st.sampled_from([0, 100, 300, 700])), draw(st.sampled_from([40, 200, 500])))
     n = len(spec["pos"])
-    if n > 60:
+    if sparse:
+        sub = sorted(draw(st.sets(hperm.integers(0, n - 1), min_size=16, max_size=40)))
+        if draw(st.booleans()):
+            sub = [sub[i] for i in draw(hperm.permutations(range(len(sub))))]
+        k = len(sub)
+    elif n > 60:
         # a few deletions spread over a large structure, always including high indices
         sub = sorted(draw(st.sets(hperm.integers(0, n - 1), min_size=1, max_size=6)) | {n - 1 - draw(hperm.integers(0, 3))})
         sub = [sub[i] for i in draw(hperm.permutations(range(len(sub))))]
@@ -229,6 +239,9 @@ def random_oracle(case, stats):
     oracle(case, stats)
     stats.count("atoms:%s" % ("<=40" if len(case["spec"]["pos"]) <= 40 else "128+" if len(case["spec"]["pos"]) >= 128 else "41-127"))
     gen_atoms.spec_stats(case["spec"], stats)
+    nterms = sum(len(case["spec"][k + "s"]) for k in M.KINDS)
+    if len(case["spec"]["pos"]) >= 128 and nterms * 8 < len(case["spec"]["pos"]):
+        stats.count("large-with-sparse-topology")
 
 
 PARTS = [
